@@ -80,7 +80,8 @@ def worker_main(argv: List[str]) -> int:
             except BaseException as e:  # harness bug: never a verdict
                 res = {"outcome": "harness_error", "violations": [],
                        "harness": "".join(traceback.format_exception(type(e), e, e.__traceback__))[-3000:]}
-            agg["runs"] += 1
+            agg["runs"] += res.get("evaluations", 1)
+            agg["plans"] = agg.get("plans", 0) + 1
             agg["steps"] += res.get("steps", 0)
             agg["vtime"] += res.get("vtime", 0.0)
             agg["probes"].update(res.get("probes", {}))
@@ -92,6 +93,8 @@ def worker_main(argv: List[str]) -> int:
                 agg["sigs"].add(sg)
                 if res.get("nontrivial"):
                     agg["nontrivial_sigs"].add(sg)
+            agg["sigs"].update(res.get("sched_sigs", []))
+            agg["nontrivial_sigs"].update(res.get("nontrivial_sigs", []))
             for s in res.get("state_sigs", []):
                 agg["states"].add(s)
             if len(agg["samples"]) < 2 and res.get("sample") is not None:
@@ -102,6 +105,8 @@ def worker_main(argv: List[str]) -> int:
                                            "detail": res.get("harness", "")})
             for v in res.get("violations", [])[:3]:
                 nviol += 1
+                if v.get("plan_patch"):
+                    plan = dict(plan, **v["plan_patch"])
                 agg["violations"].append({"idx": idx, "run_seed": rs, "plan": plan, "violation": v,
                                           "deviations": res.get("deviations"), "digest": res.get("digest"),
                                           "fired_log": res.get("fired_log")})
